@@ -136,6 +136,7 @@ def call_choices(fmt, call, full):
     return [list(t) for t in itertools.product(rc, repeat=n)]
 
 
+HIST3_ACTS = ['s', 'f', 'i01', 'i012', 'i123', 'f01']      # with and without 0/1 (ints and floats)
 EVAL_ACTS = ['s', 'i123', 'i01', 'f', 'one']        # values that Finalize leaves as they are
 
 
@@ -336,7 +337,7 @@ def build_plan(cfg, ch):
         rows = []
         for r in range(n):
             ctx = mk_ctx(call['ctx'], c, r)
-            same = [en for en in entries if same_ctx(en['ctx'], ctx) and en['acts'] == call['acts']]
+            same = [en for en in entries if same_ctx(en['ctx'], ctx) and mk_acts(en['acts']) == mk_acts(call['acts'])]     # by value: [0,1] == [0.0,1.0]
             if same:
                 rows.append(same[0]); continue          # indistinguishable to a learner that is a function of (context, actions): one script entry
             en = {'ctx': ctx, 'acts': call['acts'], 'choice': ch[c][r], 'e': e}
@@ -461,6 +462,11 @@ def simpler_cfgs(cfg, fcall):
     b = base_of(f)
     for b2 in ['A', 'AP', 'PM'][:_ord(['A', 'AP', 'PM'], b)]:
         yield w(fmt=('h' if f[0] == 'h' else '') + b2), fcall
+    for name in dict.fromkeys(c['acts'] for c in reversed(calls)):        # an action set that recurs is replaced in all its calls
+        if sum(c['acts'] == name for c in calls) > 1:
+            for a in ACT_NAMES[:_ord(ACT_NAMES, name)]:
+                if any(c['acts'] == a for c in calls): continue
+                yield w(calls=[dict(c, acts=a) if c['acts'] == name else dict(c) for c in calls]), fcall
     for i in range(last, -1, -1):
         for a in ACT_NAMES[:_ord(ACT_NAMES, calls[i]['acts'])]:
             yield wc(i, acts=a), fcall
@@ -509,11 +515,12 @@ def key_of(cfg, f):
     if cfg['mode'] != 'not': feats.append('%d row%s' % (c['n'], '' if c['n'] == 1 else 's'))
     feats.append({0: 'no kwargs', 1: 'empty kwargs', 2: 'kwargs', 3: 'kwargs with list values'}[cfg['kw']])
     feats.append('actions: %s' % ACT_KIND[c['acts']])
-    if f.call == 1:
-        c0 = cfg['calls'][0]
-        feats.append('second call after actions: %s' % ACT_KIND[c0['acts']] + ('' if cfg['mode'] == 'not' else ' (%d rows)' % c0['n']))
+    if f.call >= 1:
+        before = [ACT_KIND[c0['acts']] + ('' if cfg['mode'] == 'not' else ' (%d rows)' % c0['n']) for c0 in cfg['calls'][:f.call]]
+        feats.append('call %d after actions: %s' % (f.call + 1, ' then '.join(before)))
     if c['ctx'] != 'none': feats.append('context: %s' % c['ctx'])
     if cfg.get('box', 'm') != 'm': feats.append('containers: all %s' % ('lists' if cfg['box'] == 'l' else 'tuples'))
+    if cfg.get('seed', 1) != 1: feats.append('seed %r' % (cfg['seed'],))
     return '%s|%s|%s' % (f.comp, f.mode, ', '.join(feats))
 
 
@@ -563,7 +570,7 @@ class MemEnv:
         return list(Batch(cfg['calls'][0]['n']).filter(its)) if batched else its
 
 
-def execute_eval(cfg, ch):
+def execute_eval(cfg, ch, exp_seed=None):
     """SequentialCB(record action/probability/reward).evaluate(environment, scripted learner) on fresh objects."""
     fmt, kwid, mode, box, seed = cfg['fmt'], cfg['kw'], cfg['mode'], cfg.get('box', 'm'), cfg.get('seed', 1)
     base = base_of(fmt)
@@ -575,7 +582,11 @@ def execute_eval(cfg, ch):
     comp = 'SequentialCB'
     try:
         try:
-            res = list(SequentialCB(record=['reward', 'action', 'probability'], seed=seed).evaluate(MemEnv(cfg), learner))
+            CobaContext.store = {} if exp_seed is None else {'experiment_seed': exp_seed}
+            try:
+                res = list(SequentialCB(record=['reward', 'action', 'probability'], seed=seed).evaluate(MemEnv(cfg), learner))
+            finally:
+                CobaContext.store = {}
         except Exception as ex:   # noqa
             if isinstance(ex, NotOffered) or learner.anomalies:
                 raise Finding(comp, 'learner is offered a (context, actions) pair that is not in the environment', (learner.anomalies or [str(ex)])[0])
@@ -619,6 +630,23 @@ def execute_eval(cfg, ch):
     return out
 
 
+def eval_checked(cfg, ch):
+    """execute_eval + for PMF answers: the draws are a function of the evaluator's seed only - a second evaluation (later on
+    the virtual clock) and an evaluation inside an experiment with another experiment_seed give the same actions."""
+    r = execute_eval(cfg, ch)
+    if r['finding'] is None and r['demanded'] and base_of(cfg['fmt']) == 'PM':
+        r2 = execute_eval(cfg, ch)
+        if r2['finding'] is None and r2['rows'] != r['rows']:
+            r['finding'] = Finding('SequentialCB', 'PMF answer: the draws are not a function of the evaluator seed alone', 'two evaluations with the same seed (later on the clock): %r vs %r' % (r['rows'], r2['rows']))
+            return r
+        other = 7 if cfg['seed'] != 7 else 3
+        r3 = execute_eval(cfg, ch, exp_seed=other)
+        if r3['finding'] is None and r3['rows'] != r['rows']:
+            r['finding'] = Finding('SequentialCB', 'PMF answer: the draws are not a function of the evaluator seed alone',
+                                   'no experiment seed: %r, experiment_seed=%d: %r' % (r['rows'], other, r3['rows']))
+    return r
+
+
 def eval_cfg(fmt, kw, mode, acts, seed):
     ns = [1, 1, 1] if mode == 'not' else [2, 1]
     return {'fmt': fmt, 'kw': kw, 'mode': mode, 'box': 'm', 'seed': seed, 'calls': [{'acts': acts, 'ctx': 'scalar', 'n': n} for n in ns]}
@@ -627,7 +655,7 @@ def eval_cfg(fmt, kw, mode, acts, seed):
 def eval_failure(cfg, mode):
     """First choice for which the evaluator run of cfg shows failure `mode` although SafeLearner driven directly is fine."""
     for ch in eval_choices(cfg):
-        f = execute_eval(cfg, ch)['finding']
+        f = eval_checked(cfg, ch)['finding']
         if f is not None and f.mode == mode and run_checked(cfg, ch)['finding'] is None: return ch, f
     return None
 
@@ -659,6 +687,7 @@ def minimise_eval(cfg, ch, f):
     if cfg['mode'] != 'not': feats.append(MODE_TEXT[cfg['mode']] + ' (batches of 2 and 1)')
     if cfg['kw']: feats.append({1: 'empty kwargs', 2: 'kwargs', 3: 'kwargs with list values'}[cfg['kw']])
     if cfg['calls'][0]['acts'] != 's': feats.append('actions: %s' % ACT_KIND[cfg['calls'][0]['acts']])
+    if cfg['seed'] != 1: feats.append('evaluator seed %r' % (cfg['seed'],))
     key = 'SequentialCB|%s|%s' % (f.mode, ', '.join(feats) or 'any format')
     _EMIN_CACHE[ck] = (key, cfg, ch, f)
     return _EMIN_CACHE[ck]
@@ -690,10 +719,10 @@ class C15(Check):
     ENGINE = 'ENUM'
     RULE = ('cases = (format in {action, (action,prob), PMF, {action:}, {action_prob:}, {pmf:}}) x (kwargs: none, {}, scalar payload, '
             'list+string payload) x (layout: un-batched, row-major batch, column-major batch, learner that refuses batches) x batch size '
-            '1..2 (thorough 1..3, incl. size == number of actions) x 11 action sets (strings, one int, ints, 0/1, probability-like '
+            '1..2 (thorough 1..3, incl. size == number of actions) x 13 action sets (strings, one int, ints, 0/1, 0..2, floats 0.0/1.0, probability-like '
             'floats, one-hot tuples of 2 and 3, lists, sparse dicts with 1 and 2 features, 1-feature dense) x context kind {None, '
             'scalar, list} x SafeLearner seed (PMF formats) x container types; plus two-call histories where the second call offers '
-            'another action set (and another batch size); plus the same answers for 3 interactions through the real SequentialCB (5 action sets, '
+            'another action set (and another batch size), and three-call histories XXY / XYX / XYY over every ordered pair of 6 action sets with and without 0/1 (joint rotations of the answers); SafeLearner / evaluator seeds include 0 (and 0.0), contexts, kwargs values and stated probabilities include 0; plus the same answers for 3 interactions through the real SequentialCB (5 action sets, '
             'un-batched and batches of 2+1) and one aggregate case (uniform PMF draws over 4 seeds). Inside a single-call case EVERY assignment of named action / stated '
             'probability / PMF (one-hots, two mixed) to the rows is executed; two-call cases execute all rotations (thorough, without kwargs: all rotations of the first x every assignment of the second call). Every execution '
             'builds a fresh scripted learner and SafeLearner, runs predict then learn, and compares with the reference reading. An '
@@ -708,16 +737,17 @@ class C15(Check):
         'batched kwargs are compared per row ({k: v[row]}); the container types of the returned batch are not constrained',
         'learn is driven directly with predict\'s result and a reward, as SequentialCB does; in addition a slice (5 scalar action sets, 3 interactions, un-batched and batches of 2+1) runs through the real SequentialCB(record reward/action/probability), where the recorded action / probability / reward and the arguments of learn are compared; a failure there is reported only if SafeLearner driven directly reads the same answers correctly (otherwise the direct case reports it)',
         'a column-major un-hinted PMF history whose FIRST batch is 1 row x 1 action ([[1]]: identical in row- and column-major reading, also under a one-row probe) is demanded for that first call only',
+        'reproducibility: coba.random sees a virtual clock whose every reading differs; two executions with the same seed must draw the same actions, and through SequentialCB the draws under an evaluator seed must not depend on CobaContext.store["experiment_seed"]; that the evaluator and a directly built SafeLearner with the same seed draw the same is NOT demanded',
         'sampling: a uniform PMF over two actions must yield both actions somewhere among 16 un-batched and among 12 batched draws (seeds 1,2,3,7); no other distributional demand',
         'all rows of one batch are offered the same action set (fresh objects per row); continuous (empty) action sets are outside the alphabet',
     ]
     TECHNIQUE = ('bounded-exhaustive enumeration of prediction format x kwargs x batch layout x batch size x action type x per-row answers on the '
                  'real SafeLearner (predict + learn) against a reference reading of the scripted learner\'s answer')
     LEVEL_TEXT = ('Every documented prediction format, with and without kwargs, un-batched / row-major / column-major / per-row fallback, batch '
-                  'sizes up to 3 (including the square case), over 11 action-set types and every assignment of named actions / probabilities / '
-                  'PMFs to the rows, plus two-call histories with a changed action set, is run on the real SafeLearner and compared with the '
+                  'sizes up to 3 (including the square case), over 13 action-set types and every assignment of named actions / probabilities / '
+                  'PMFs to the rows, plus two-call histories with a changed action set and three-call histories that return to an earlier action set, is run on the real SafeLearner and compared with the '
                   'reference reading; exhaustive below the bound, so the smallest mis-read layout is found with certainty.')
-    LEVEL_NOTE = 'small-scope hypothesis: <=3 rows, <=3 actions, 2 calls, a fixed set of probabilities / PMFs / kwargs payloads; un-hinted value-ambiguous PMFs are excluded as the property does'
+    LEVEL_NOTE = 'small-scope hypothesis: <=3 rows, <=3 actions, <=3 calls, a fixed set of probabilities / PMFs / kwargs payloads; un-hinted value-ambiguous PMFs are excluded as the property does'
     MIN_NONTRIVIAL = {'quick': 50000, 'thorough': 500000}
     CASE_TIMEOUT = 60
 
@@ -727,14 +757,14 @@ class C15(Check):
         sizes = [1, 2] if quick else [1, 2, 3]
         layouts = [('not', 1)] + [(m, n) for n in sizes for m in ('row', 'col', 'fb')]
         boxes = ['m'] if quick else BOXES
-        def seeds(fmt): return ([1, 2] if quick else [1, 2, 3, 7]) if base_of(fmt) == 'PM' else [1]
+        def seeds(fmt): return ([0, 1] if quick else [0, 0.0, 1, 7]) if base_of(fmt) == 'PM' else [1]      # incl. the falsy but legal seeds
         yield {'agg': 'pmf-variation', 'seeds': [1, 2, 3, 7]}
         # the same answers through the real SequentialCB (3 interactions; batches of 2 then 1)
         for mode in MODES:
             for acts in EVAL_ACTS:
                 for fmt in FMTS:
                     for kw in ((0, 2) if quick else range(4)):
-                        for seed in seeds(fmt)[:2]:
+                        for seed in (seeds(fmt) if quick else seeds(fmt)[:3]):
                             yield dict(eval_cfg(fmt, kw, mode, acts, seed), via='eval')
         # single calls
         for mode, n in layouts:
@@ -760,6 +790,19 @@ class C15(Check):
                                             'calls': [{'acts': acts, 'ctx': ctx, 'n': n}, {'acts': acts2, 'ctx': ctx, 'n': n2}]}
                                     if not quick and kw == 0 and ctx == 'scalar': case['full2'] = 1      # every assignment of answers to the rows of the second call
                                     yield case
+
+        # three calls over two action sets X, Y (XXY, XYX, XYY for every ordered pair): state kept from earlier calls
+        for mode, n in ([('not', 1)] + [(m, 2) for m in ('row', 'col', 'fb')] if quick else layouts):
+            for x in HIST3_ACTS:
+                for y in HIST3_ACTS:
+                    if x == y: continue
+                    for pat in ((x, x, y), (x, y, x), (x, y, y)):
+                        for fmt in FMTS:
+                            for kw in (0, 2):
+                                for ctx in (('scalar',) if quick else ('none', 'scalar')):
+                                    for seed in seeds(fmt)[:2]:
+                                        yield {'fmt': fmt, 'kw': kw, 'mode': mode, 'box': 'm', 'seed': seed,
+                                               'calls': [{'acts': a, 'ctx': ctx, 'n': n} for a in pat]}
 
     # -------------------------------------------------------------- one case
     def run_case(self, case, acc):
@@ -803,7 +846,7 @@ class C15(Check):
     def run_eval(self, case, acc):
         cfg = {k: case[k] for k in ('fmt', 'kw', 'mode', 'calls', 'box', 'seed')}
         for ch in ([case['ch']] if 'ch' in case else eval_choices(cfg)):
-            r = execute_eval(cfg, ch)
+            r = eval_checked(cfg, ch)
             acc.count('evaluator_executions')
             f = r['finding']
             if f is None:
